@@ -36,6 +36,10 @@ func WirePacket(r *rand.Rand, maxOpts int) ([]byte, *ref4.P4) {
 	for i := 4; i < 44; i++ {
 		b[i] = byte(r.UintN(256))
 	}
+	if r.IntN(5) == 0 { // flags with a single bit set
+		f := uint16(1) << r.UintN(16)
+		b[10], b[11] = byte(f>>8), byte(f)
+	}
 	copy(e.Xid[:], b[4:8])
 	e.Secs = uint16(b[8])<<8 | uint16(b[9])
 	e.Flags = uint16(b[10])<<8 | uint16(b[11])
